@@ -110,7 +110,8 @@ def unit(root='/repo'):
                 invariant_except_break
                     *inodes == *old(inodes),
                 invariant
-                    inode != 1, old(inodes).data@.contains_key(inode), *data == old(inodes).data@[inode],
+                    inode != 1, // [C08.forget.root] the root is never forgotten: forget_one itself refuses inode 1
+                    old(inodes).data@.contains_key(inode), *data == old(inodes).data@[inode],
                     forall|a: &AtomicU64, c: u64, n: u64| #[trigger] cas_allowed(a, c, n) <==>
                         old(inodes).data@.contains_key(inode) && *a == old(inodes).data@[inode].refcount && n == (if c >= count { (c - count) as u64 } else { 0u64 }),
                 ensures
